@@ -38,6 +38,7 @@ CONSTANTS MaxNodes,     \* trees have 1..MaxNodes nodes
           MaxRoots,
           OptMode,      \* "full": the whole option product; "relevant": options that cannot bite on the tree stay off;
                         \* "device": same_file_system and follow_links on, no size limit, every filter / ignore rule
+                        \* "ignore": nothing but the ignore rules (every directory x every entry it may name)
           ExactSize,    \* simulation: 0, or every behaviour builds a tree of a size fixed in the initial state
           NeedDev2,     \* TRUE: only trees in which some link leads to the other device get scenarios
           OptSample     \* simulation: 0 = every option record of OptSet, k > 0 = a random k-subset of it per (tree, roots)
@@ -87,7 +88,7 @@ IgnPairs(t) == {<<d, x>> : d \in {j \in 1..Len(t) : t[j].kind = "dir"}, x \in 1.
 
 OptSet(t) ==
   LET full == OptMode = "full"
-      B(on) == IF OptMode = "device" THEN {TRUE} ELSE IF full \/ on THEN BOOLEAN ELSE {FALSE}
+      B(on) == IF OptMode = "device" THEN {TRUE} ELSE IF OptMode = "ignore" THEN {FALSE} ELSE IF full \/ on THEN BOOLEAN ELSE {FALSE}
       hasBig == \E i \in 1..Len(t) : t[i].kind = "file" /\ t[i].big
       hasLink == \E i \in 1..Len(t) : t[i].kind = "link"
       hasDev2 == \E i \in 1..Len(t) : t[i].dev # 1
@@ -100,7 +101,7 @@ OptSet(t) ==
   IN {[md |-> m, fs |-> a, fl |-> b, sfs |-> c, filt |-> f, ignd |-> g[1], ignt |-> g[2], igndir |-> g[3]]
         : m \in Depths, a \in (IF OptMode = "device" THEN {FALSE} ELSE B(hasBig)), b \in B(hasLink),
           c \in (IF Devs = {1} THEN {FALSE} ELSE B(hasDev2)),      \* one device: same_file_system cannot act
-          f \in 0..Len(t), g \in igns}
+          f \in (IF OptMode = "ignore" THEN {0} ELSE 0..Len(t)), g \in igns}
 
 -----------------------------------------------------------------------------
 (* One directory entry (depth > 0) as the walkers see it.
